@@ -231,6 +231,9 @@ def domain(ctx, res):
     near_one = [(c, v, e) for c in (1.0000000001, 0.9999999999, 1.000001, -1.0000000001, 1.0) for v in ("x",) for e in (None, 2, 0)]
     triples = [t for t in triples if t[0] is None or abs(t[0]) < 2 ** 30]      # make_term is exercised with ordinary coefficients   # "-1x" is written with its coefficient; "-x" is covered below
     ns = list(range(1, 501 if ctx.quick else 20001))
+    # beyond any small-number fast path: big perfect squares, k(k+1), k(k+2), powers of two, round numbers (divisor pairs around the root)
+    ns += [4096 ** 2, 4097 ** 2, 4097 * 4098, 4097 * 4099, 5000 ** 2, 5000 * 5001, 2 ** 26, 10 ** 8, 9973 ** 2, 9973 * 10007, 2 ** 24 + 1, 12345678, 46340 ** 2] + \
+          ([] if ctx.quick else [2 ** 31 - 1, 46337 * 46327, 2 ** 30, 40000 * 40001])          # (TLC integers are 32-bit: n < 2^31)
     huge = "1" + "0" * 400          # an exact integer beyond the range of a double (as exponent, coefficient and constant)
     like_forms = FORMS + ["(x + 1)^2", "0.5x", "x^0", "2x * y", "x * y", "y * x", "4", "x / 2", "x^" + huge, "7x^" + huge, huge + "x", huge + "x^2", huge, "x^2.0", "3x^2.0", "x^-" + huge]
     pairs = list(itertools.product(like_forms, repeat=2))
